@@ -236,7 +236,7 @@ def check_C04(ctx, tier):
     A.rule_A_EFF(ctx, ctx.repo, cache, must_read_only=True)
     A.rule_A_COMMIT(ctx, ctx.repo, cache)
     A.rule_A_RED_COPY(ctx, ctx.repo, cache)
-    A.rule_A_FACTORY_OPEN(ctx, ctx.repo, cache)
+    A.rule_A_FACTORY_OPEN(ctx, ctx.repo, cache, do_open=False)
     ctx.tables['primitives'] = A.PRIMITIVES
     ctx.assume('equality of decoded values, original key types under json and stale .pyc reuse of the import-based reader are not decided')
     return ('No persistent archive method outside __init__/__drop__ assigns instance state (no handle-local content cache); every reader '
